@@ -210,6 +210,144 @@ def cached_runner(ctx):
     return ok, r
 
 
+# ----------------------------------------------------------------------------- extended streams (coq_eval)
+def nlist(h):
+    return "[" + "; ".join(str(b) for b in bytes.fromhex(h)) + "]"
+
+
+def ext_streams(ctx, binp, quick, viol, seen, nontrivial, depth):
+    n_leb, n_new, n_b64 = (400, 40, 300) if quick else (20000, 2500, 12000)
+    pre = ("From Coq Require Import NArith ZArith List. Import ListNotations.\n"
+           "From CB Require Import Contract.SchemaJson Contract.SchemaJsonLeb Contract.CcSchemaCodec Contract.CcSchemaNew Contract.Base64.\n"
+           "Local Open Scope N_scope.\n")
+    # ---- LEB128: decoder, fixed form, strip -- against to_json / serial_value
+    rc, out = c.run_bin(binp, ["leb", ctx.seed, n_leb], timeout=600)
+    if rc != 0:
+        ctx.violation({"layer": "harness run leb", "output": out[-2000:]}, "harness crashed in mode leb", no_input=True)
+        return
+    lcases = lines_of(out)
+    terms = c.coq_eval(ctx, "leb", pre, ["leb_probe %s %d %s" % ("true" if cs["s"] else "false", cs["c"], nlist(cs["bytes"])) for cs in lcases], shard=100)
+    ldist = {}
+    lstat = {"accepted": 0, "rejected": 0, "padded_accepted": 0, "strip_changed": 0}
+    for cs, t in zip(lcases, terms):
+        ldist[cs["kind"]] = ldist.get(cs["kind"], 0) + 1
+        key = c.digest(["leb", cs["s"], cs["c"], cs["bytes"]])
+        seen.add(key)
+        short = {"type": ("ILeb128" if cs["s"] else "ULeb128"), "constraint": cs["c"], "bytes": cs["bytes"], "kind": cs["kind"]}
+        if cs["out"] == "PANIC" or cs.get("back") == "PANIC":
+            viol(dict(short, panic=cs.get("panic")), "LEB128 conversion panicked on %s" % cs["bytes"])
+            continue
+        if cs["out"] == "ERR":
+            lstat["rejected"] += 1
+            if t != "None":
+                viol(dict(short, model=str(t)[:600], theorem="leb128_*_accepts_iff (model accepts, implementation rejects)"),
+                     "to_json rejects a LEB128 encoding the model accepts: %s under constraint %d" % (cs["bytes"], cs["c"]))
+            continue
+        lstat["accepted"] += 1
+        nontrivial.add(key)
+        if t == "None":
+            viol(dict(short, impl=cs["out"], theorem="leb128_*_accepts_iff (implementation accepts, model rejects)"),
+                 "to_json accepts a LEB128 encoding the model rejects: %s under constraint %d" % (cs["bytes"], cs["c"]))
+            continue
+        neg, mag, nrest, strip, is_fixed, fits, enc = t[1]
+        val = -mag if neg == "true" else mag
+        blen = len(cs["bytes"]) // 2
+        used = blen - nrest
+        want_back = bytes(strip).hex()
+        m_enc = "ERR" if enc == "None" else bytes(enc[1]).hex()
+        if str(val) != cs["out"]["v"] or used != cs["out"]["used"]:
+            viol(dict(short, impl=cs["out"], model_value=str(val), model_used=used, theorem="leb128 decoder correspondence"),
+                 "to_json value / consumed bytes differ from the model on %s" % cs["bytes"])
+            continue
+        if is_fixed != "true" or fits != "true":
+            viol(dict(short, model=str(t)[:600], theorem="leb128_*_accepts_iff: accepted bytes are the fixed form of the value"), "accepted bytes are not the fixed form (model-internal)")
+            continue
+        if cs["back"] != want_back or m_enc != want_back:
+            viol(dict(short, impl_value=cs["out"]["v"], impl_back=cs["back"], model_strip=want_back, model_enc=m_enc, theorem="leb128_*_normal_form: from_json (to_json b) = strip b"),
+                 "serial_value (to_json b) is not the stripped form of b: impl %s model %s" % (cs["back"], want_back))
+            continue
+        if used > len(strip):
+            lstat["padded_accepted"] += 1
+            lstat["strip_changed"] += 1
+    ctx.notes["leb128_stream"] = {"kinds": ldist, "stats": lstat, "constraints": "0,1,2,5,10,37 and 1..12; values 0, 2^(7c)-1, 2^(7c), 2^(7c-7), 2^(7c-7)-1, +-2^(7c-1), +-(2^(7c-1)+1), 63..129, u64 edges, random"}
+    ctx.cov["samples"] += [trim({k: cs[k] for k in ("s", "c", "bytes", "out", "back", "kind") if k in cs}, 400) for cs in lcases[2:4]]
+
+    # ---- VersionedModuleSchema::new
+    rc, out = c.run_bin(binp, ["new", ctx.seed, n_new, depth], timeout=600)
+    if rc != 0:
+        ctx.violation({"layer": "harness run new", "output": out[-2000:]}, "harness crashed in mode new", no_input=True)
+        return
+    ncases = lines_of(out)
+    exprs, owners = [], []
+    for cs in ncases:
+        for r in cs["res"]:
+            exprs.append("new_probe %s %s" % (nlist(cs["bytes"]), "None" if r["hint"] is None else "(Some %d)" % r["hint"]))
+            owners.append((cs, r))
+    terms = c.coq_eval(ctx, "new", pre, exprs, shard=70)
+    ndist = {}
+    for (cs, r), t in zip(owners, terms):
+        k = r["r"]["k"]
+        ndist["%s/%s/%s" % (cs["form"], cs["dmg"], k)] = ndist.get("%s/%s/%s" % (cs["form"], cs["dmg"], k), 0) + 1
+        key = c.digest(["new", cs["bytes"], r["hint"]])
+        seen.add(key)
+        short = {"bytes": cs["bytes"], "hint": r["hint"], "form": cs["form"], "damage": cs["dmg"]}
+        if k == "PANIC":
+            viol(dict(short, panic=r["r"].get("panic")), "VersionedModuleSchema::new panicked")
+            continue
+        code, mb = t
+        want = {0: "ok", 1: "parse", 2: "missing", 3: "invalid"}[code]
+        if k != want or (k == "ok" and bytes(mb).hex() != r["r"]["bytes"]):
+            viol(dict(short, impl=r["r"], model=want, model_bytes=bytes(mb).hex()[:400], theorem="schema_new_r correspondence (dispatch and error kinds)"),
+                 "VersionedModuleSchema::new differs from the model: impl %s, model %s" % (k, want))
+            continue
+        if k == "ok":
+            nontrivial.add(key)
+        # direct: undamaged unversioned bytes with the right hint / versioned bytes with any hint give the module
+        if cs["dmg"] == "none" and (cs["form"] == "versioned" or r["hint"] == cs["ver"]) and not (k == "ok" and r["r"]["bytes"] == cs["vbytes"]):
+            viol(dict(short, impl=r["r"], expected=cs["vbytes"][:400], theorem="schema_new_unversioned / schema_new_versioned_any_hint"),
+                 "VersionedModuleSchema::new does not return the module from its %s bytes (hint %s)" % (cs["form"], r["hint"]))
+        if cs["dmg"] == "none" and cs["form"] == "unversioned" and ((r["hint"] is None and k != "missing") or (r["hint"] is not None and r["hint"] > 3 and k != "invalid")):
+            viol(dict(short, impl=r["r"], theorem="schema_new_unversioned"), "wrong error kind for unversioned bytes with hint %s: %s" % (r["hint"], k))
+    ctx.notes["schema_new_stream"] = {"cases": len(ncases), "calls": len(owners), "form/damage/result": ndist}
+
+    # ---- base64
+    rc, out = c.run_bin(binp, ["b64", ctx.seed, n_b64], timeout=600)
+    if rc != 0:
+        ctx.violation({"layer": "harness run b64", "output": out[-2000:]}, "harness crashed in mode b64", no_input=True)
+        return
+    bcs = lines_of(out)
+    terms = c.coq_eval(ctx, "b64", pre, ["(b64_encode %s, b64_decode %s, b64_decode_lax %s)" % (nlist(cs["data"]), nlist(cs["s"]), nlist(cs["s"])) for cs in bcs], shard=100)
+    bdist = {}
+    bstat = {"accepted": 0, "rejected": 0, "rejected_only_for_trailing_bits": 0}
+    for cs, t in zip(bcs, terms):
+        key = c.digest(["b64", cs["s"], cs["data"]])
+        seen.add(key)
+        m_enc, m_dec, m_lax = t
+        d = "ERR" if m_dec == "None" else bytes(m_dec[1]).hex()
+        bdist["%s/%s" % (cs["kind"], "ok" if cs["dec"] != "ERR" else "err")] = bdist.get("%s/%s" % (cs["kind"], "ok" if cs["dec"] != "ERR" else "err"), 0) + 1
+        short = {"string": bytes.fromhex(cs["s"]).decode("latin-1"), "string_hex": cs["s"], "kind": cs["kind"]}
+        if cs["dec"] == "PANIC":
+            viol(short, "base64 decode panicked")
+            continue
+        if bytes(m_enc).hex() != cs["enc"]:
+            viol({"data": cs["data"], "impl": cs["enc"], "model": bytes(m_enc).hex(), "theorem": "b64_encode correspondence"}, "base64 encoding differs from the model")
+            continue
+        if d != cs["dec"]:
+            viol(dict(short, impl=cs["dec"], model=d, theorem="base64_decoder_is_canonical / b64_decode correspondence"),
+                 "STANDARD_NO_PAD.decode differs from the model on %r: impl %s model %s" % (short["string"], cs["dec"], d))
+            continue
+        if cs["dec"] == "ERR":
+            bstat["rejected"] += 1
+            if m_lax != "None":
+                bstat["rejected_only_for_trailing_bits"] += 1
+        else:
+            bstat["accepted"] += 1
+            nontrivial.add(key)
+    ctx.notes["base64_stream"] = {"kind/result": bdist, "stats": bstat}
+    ctx.cov["evaluations"] = ctx.cov.get("evaluations", 0)
+    ctx.notes["extended_streams_evaluations"] = len(lcases) + len(owners) + len(bcs)
+
+
 # ----------------------------------------------------------------------------- the check
 def run(ctx):
     ctx.assumptions += [
@@ -218,7 +356,7 @@ def run(ctx):
         "serde_json is built without arbitrary_precision/preserve_order (checked: default features): integer literals outside "
         "[-2^63, 2^64) and all non-integers are floats, which the integer schema types reject",
         "JSON values in memory hold valid UTF-8 strings and fewer than 2^32 array elements / 2^33 string bytes (json_wf)",
-        "base64 decoding is the base64 crate's (diffed, not modelled)",
+        "base64 (STANDARD_NO_PAD) is modelled (Contract/Base64.v) and diffed against the base64 0.21 crate; the '='-padded engines are not modelled (not used by schema.rs)",
         "converse theorems: no repeated field / variant names, <= 65536 enum variants, u32 array sizes (ty_distinct_fields), byte-valued input, "
         "and the leaf text forms parse back (leaves_rt: proved for the stub, C16's theorems for the real codecs, harness mode leaf)",
     ]
@@ -477,6 +615,13 @@ def run(ctx):
         if not cs["ok"]:
             viol({"leaf": cs}, "text form of %s does not parse back to the value (%s -> %s)" % (cs["type"], cs["v"], cs["text"]))
 
+    # ------------------------------------------------------------------ LEB128 forms, VersionedModuleSchema::new, base64 (vm_compute on the new definitions)
+    try:
+        ext_streams(ctx, binp, quick, viol, seen, nontrivial, min(depth, 32))
+    except RuntimeError as e:
+        ctx.violation({"layer": "model evaluation of the LEB128 / schema_new / base64 definitions", "error": str(e)[-1500:]},
+                      "the model evaluation of the extended definitions failed", no_input=True)
+
     # ------------------------------------------------------------------ observations O1 / O2 (outside the claim)
     rc, out = c.run_bin(binp, ["obs", 20 if quick else 24], timeout=300)
     ctx.notes["observations_outside_claim"] = {
@@ -484,7 +629,7 @@ def run(ctx):
         "O4_leaf_parser_panics_skipped": counters["o4_leaf_panics"],
     }
 
-    n_eval = len(cases) + len(bcases) + len(scases) + len(ct) + len(lf)
+    n_eval = len(cases) + len(bcases) + len(scases) + len(ct) + len(lf) + ctx.notes.get("extended_streams_evaluations", 0)
     ctx.cov["evaluations"] = n_eval
     ctx.cov["traces_validated_against_impl"] = len(live) + len(bcases) + len(owners)
     ctx.cov["distinct_nontrivial"] = len(nontrivial)
@@ -497,6 +642,8 @@ def run(ctx):
         "accepted grammar ('+', leading zeros, '_', '-0', upper-case hex, offsets, missing subindex, extra keys); every third case is mutated at a random "
         "node (near miss); by: valid encodings unchanged / with tail / truncated / one byte changed / 0xff-overwritten prefixes and inner runs, and random "
         "bytes; zero-width element collections keep U8/U16 lengths; schema: Types, FunctionV1/V2, modules V0-V3 and hostile schema bytes; "
+        "leb / new / b64: see notes leb128_stream, schema_new_stream, base64_stream (vm_compute of leb_probe / new_probe / b64_* against to_json+serial_value, "
+        "VersionedModuleSchema::new, STANDARD_NO_PAD); "
         "non-trivial = the implementation returned a value; distinct = distinct (type, input) hash")
 
     if nviol[0] > 8:
